@@ -218,6 +218,12 @@ func findFunctionCallViolation(
 
 		// Check if it's a method call (obj.Method)
 		typeInfo := util.ExtractTypeInfo(ctx.pass.TypesInfo.TypeOf(fun.X))
+		// A method promoted through an embedded field belongs to the embedded type, not to the type of fun.X
+		if sel := ctx.pass.TypesInfo.Selections[fun]; sel != nil && sel.Kind() == types.MethodVal && len(sel.Index()) > 1 {
+			if sig, ok := sel.Obj().Type().(*types.Signature); ok && sig.Recv() != nil {
+				typeInfo = util.ExtractTypeInfo(sig.Recv().Type())
+			}
+		}
 		if typeInfo != nil {
 			methodName := fun.Sel.Name
 			if ctx.testOnlyMethods.Match(typeInfo.PkgPath, methodName, typeInfo.TypeName) {
